@@ -57,6 +57,15 @@ if REPO != "/repo":
 if REPO == "/repo":
     EVIDENCE = os.path.join(ROOT, "evidence")
     REPLAY = os.path.join(ROOT, "replay")
+COVERAGE = bool(os.environ.get("VERIF_COVERAGE")) and REPO == "/repo"
+if COVERAGE:
+    # development aid (tools_coverage.py): the same checks against a source-coverage build of the harness; its builds,
+    # evidence and replay files live under build/cov so that such a run never rewrites what the registered checks wrote.
+    BUILD = os.path.join(ROOT, "build", "cov")
+    EVIDENCE = os.path.join(BUILD, "evidence")
+    REPLAY = os.path.join(BUILD, "replay")
+    os.makedirs(os.path.join(BUILD, "prof"), exist_ok=True)
+    os.environ["LLVM_PROFILE_FILE"] = os.path.join(BUILD, "prof", "vh-%p-%8m.profraw")
 CALL_TIMEOUT = int(os.environ.get("VERIF_CALL_TIMEOUT", "900"))
 RUN_ID = os.environ.setdefault("VERIF_RUN_ID", "%d-%d" % (os.getpid(), int(time.time())))
 NCPU = int(os.environ.get("VERIF_JOBS", str(min(16, os.cpu_count() or 4))))
@@ -89,7 +98,8 @@ def _cargo_env(target_dir):
     env = dict(os.environ)
     env["CARGO_NET_OFFLINE"] = "true"
     env["CARGO_TARGET_DIR"] = target_dir
-    env["RUSTFLAGS"] = RUSTFLAGS
+    env["RUSTFLAGS"] = RUSTFLAGS + (" -Cinstrument-coverage" if COVERAGE else "")
+    env.pop("LLVM_PROFILE_FILE", None)
     env.pop("RUSTC_WRAPPER", None)
     return env
 
@@ -108,7 +118,7 @@ def build(variants, quiet=True):
             fcntl.flock(lk, fcntl.LOCK_EX)
             src_lock = os.path.join(REPO, "Cargo.lock")
             shutil.copyfile(src_lock if os.path.exists(src_lock) else "/repo/Cargo.lock", lockfile)
-            cmd = ["cargo", "build", "--offline", "--profile", prof, "--no-default-features", "--features", feat]
+            cmd = ["cargo"] + (["+nightly"] if COVERAGE else []) + ["build", "--offline", "--profile", prof, "--no-default-features", "--features", feat]
             t0 = time.time()
             p = subprocess.run(cmd, cwd=HARNESS, env=_cargo_env(tdir), capture_output=True, text=True)
             if p.returncode != 0:
